@@ -20,6 +20,7 @@ LEVEL_TEXT += (' (E5.key) deferred statements and attributes are never identifie
 
 
 LEVEL_TEXT += (' (E3.all) the attribute loops of the attribute statements (strict, lazy collection, lazy evaluation) process every attribute: no successful return from inside the loop.')
+LEVEL_TEXT += (' Every cycle of the deferred attribute loops reaches Attributes::add.')
 def run(prog, rep):
     rep.rule("E5", "container fields of the graph are mutated only by their designated functions (see level text)")
     n = 0
@@ -90,6 +91,20 @@ def run(prog, rep):
                 rep.check(found, "E2.d", "%s :: Attributes::add → DuplicateAttribute #%d" % (f.id, na), sp_str(t["sp"]), "conflict reported as DuplicateAttribute",
                           "an attribute conflict here is not reported as DuplicateAttribute")
     rep.floor("E2.d", na, 7, "Attributes::add call sites")
+    # the deferred attribute statements assign every attribute they carry: each cycle of the attribute loop reaches Attributes::add
+    from ..engines.e3_driver import forward_loops, once_per_iteration
+    for ty in ("tsg::execution::lazy::statements::LazyAddGraphNodeAttribute", "tsg::execution::lazy::statements::LazyAddEdgeAttribute"):
+        fl = [f for f in prog.shape_fns() if f.self_path == ty and f.name == "evaluate"]
+        if len(fl) != 1:
+            rep.violation("E3.all", "anchor-lost:%s::evaluate" % ty.rsplit("::", 1)[-1], "", "not found")
+            continue
+        f = fl[0]
+        ftr = Tracer(f.body)
+        loops = forward_loops(f.body, ftr, r"arg:self\.attributes$")
+        calls = [b for b, t in f.body.calls() if is_callee(t, r"graph::Attributes::add$")]
+        ok, msg = once_per_iteration(f.body, loops[0][0], loops[0][1], calls) if len(loops) == 1 else (False, "no plain forward loop over self.attributes")
+        rep.check(ok, "E3.all", "%s :: every attribute is assigned" % f.id, f.loc(), "for attribute in &self.attributes: Attributes::add — " + msg,
+                  "an attribute carried by the deferred statement can be skipped without being assigned or compared with the stored value (%s): a conflicting value is silently dropped" % msg)
     # no graph reset on the execute_into paths
     rep.rule("C09.keep", "execute_into never creates, clears or truncates the graph it is given; only execute() creates a graph")
     cg = prog.callgraph()
